@@ -821,6 +821,23 @@ def line(case, impl):
            "mutants": mutants}
     if impl.get("code") is not None:
         out["code"] = impl["code"]
+    fdocs = (impl.get("docs") or {}).get("field_docs") or []
+    if fdocs:
+        out["fieldDocs"] = [[n, dump.dump_value(x)] for n, x, _, _ in fdocs]
+        props = case["schema"].get("properties", {})
+        table = []
+        for n, x, _, _ in fdocs:
+            pat = props.get(n, {}).get("pattern")
+            if pat is not None and isinstance(x, str):
+                try:
+                    with warnings.catch_warnings():
+                        warnings.simplefilter("ignore")
+                        e = [pat, x, re.compile(pat).match(x) is not None, re.search(pat, x) is not None]
+                except re.error:
+                    continue
+                if e not in table:
+                    table.append(e)
+        out["reTable"] = table
     return out
 
 
@@ -1053,6 +1070,21 @@ def judge(case, impl, model):
                         + repr(m)[:400])
             break
 
+    # -- the Lean exactness models (Spec/CodeExact.lean: Deser + validate on the generated declaration, jsV on the source
+    #    schema) against the real Deserializer and jsonschema on this case's scalar properties
+    fdocs = (impl.get("docs") or {}).get("field_docs") or []
+    for (n, x, got, want), mv in zip(fdocs, model.get("fieldVerdicts", [])):
+        if mv is None or model.get("nameIssue"):
+            continue
+        if mv[0] != got:
+            msgs.append(f"exactness model: generated field {n!r} on value {x!r}: real class {'accepts' if got else 'rejects'}, "
+                        f"Lean Deser+validate model {'accepts' if mv[0] else 'rejects'}")
+            break
+        if mv[1] != want:
+            msgs.append(f"exactness model: schema of {n!r} on value {x!r}: jsonschema {'admits' if want else 'rejects'}, "
+                        f"Lean validator model {'admits' if mv[1] else 'rejects'}")
+            break
+
     # -- caller's schema must not be modified
     if impl.get("mutated"):
         fails.append(("mutates-input:required", "schema_to_struct_code modified the caller's schema: required "
@@ -1076,6 +1108,10 @@ def judge(case, impl, model):
                 model.get("recog") == "unknown" or (phase_i == "exec" and impl.get("err") == "NameError")):
             # a name that is not a Python name: outside the recogniser's subset (no prediction), or it parses as something
             # else / is name-mangled inside the class body (`__x`) and is undefined when the module runs
+            attributed = True
+        if model.get("nameIssue") and phase_i == "ok" and phase_m in ("compile", "exec"):
+            # a name that is not a Python name changed what the text means ("#c" comments out the line that held the
+            # forward / cyclic reference): keyed below as roundtrip:name-not-identifier
             attributed = True
         if not attributed:
             msgs.append(f"phase differs: real {phase_i} ({impl.get('err')}: {impl.get('msg')}), model {phase_m}")
@@ -1192,6 +1228,8 @@ def tags(case, impl, model):
             out.append(f"mutant:{v}/cpython-{'ok' if ok else 'fails'}")
         if o.get("nameIssue"):
             out.append("name-not-identifier")
+        fv = [v for v in o.get("fieldVerdicts", []) if v is not None]
+        out.append("exactness-model-values:%d" % min(40, 10 * (len(fv) // 10)))
         out.append("theorem-side-conditions:" + ("hold" if o.get("srcOk") and o.get("oracleOk") and o.get("nestOk")
                                                    else "excluded"))
         for u in sorted(set(o.get("unfaithful", []))):
